@@ -2,6 +2,7 @@ package python
 
 import (
 	"fmt"
+	"sort"
 	"strings"
 
 	"github.com/grafana/cog/internal/ast"
@@ -36,6 +37,22 @@ func formatValue(val any) string {
 		}
 
 		return fmt.Sprintf("[%s]", strings.Join(items, ", "))
+	}
+
+	if dict, ok := val.(map[string]any); ok {
+		// sorted, to have a deterministic output
+		keys := make([]string, 0, len(dict))
+		for key := range dict {
+			keys = append(keys, key)
+		}
+		sort.Strings(keys)
+
+		entries := make([]string, 0, len(dict))
+		for _, key := range keys {
+			entries = append(entries, fmt.Sprintf("%#v: %s", key, formatValue(dict[key])))
+		}
+
+		return fmt.Sprintf("{%s}", strings.Join(entries, ", "))
 	}
 
 	return fmt.Sprintf("%#v", val)
